@@ -3,8 +3,8 @@ from .. import core
 from .. import valuation as V
 
 ID = 'C06'
-RUNS = {'quick': 25000, 'thorough': 2000000}
-WALL_CAP = {'quick': 45, 'thorough': 1500}
+RUNS = {'quick': 16000, 'thorough': 2000000}
+WALL_CAP = {'quick': 70, 'thorough': 1500}
 BLOCK = 250
 RULE = ('runs = seeded OBJ sessions: histories of AddCashFlow (every sign/bracket spelling, products and quotients of '
         'two names, numbers, income flag both ways, eqn None / empty / expression), AddCashFlowIncomeExclusion, and '
@@ -27,6 +27,13 @@ BAD = ['A+B', '2*A*B', 'A-B', '(A', 'A*B*C', 'max(A,B)']
 
 def generate(seed, tier):
     S = core.Streams(seed)
+    if S['swarm'].random() < 0.008:
+        # model level: flows recorded on sectors by the framework itself and by Model.RegisterCashFlow (source and
+        # destination income flags differ), observed on the solved INC series
+        from .. import econgen
+        fam = S['swarm'].choice(['multi_currency', 'multi_currency', 'closed', 'capitalists', 'closed_fin', 'pc'])
+        ops, info = econgen.gen_program(seed, family=fam, tight=S['swarm'].random() < 0.5, T=S['knobs'].randint(1, 3))
+        return {'kind': 'ECON', 'family': info['family'], 'ops': ops}
     rng = S['ops']
     ops = [{'op': 'model', 'id': 'm0'}, {'op': 'country', 'id': 'c0', 'model': 'm0', 'code': 'CA'}]
     sectors = []
@@ -77,7 +84,16 @@ def list_paths(case):
     return [('ops',)]
 
 
+def valid(case):
+    if case.get('kind') == 'ECON':
+        from .. import econprops
+        return econprops.valid_program(case)
+    return True
+
+
 def simplify(case):
+    if case.get('kind') == 'ECON':
+        return
     for i, o in enumerate(case['ops']):
         if o['op'] == 'flow':
             if o['term'].strip() not in (o['body'], '-' + o['body']):
@@ -102,6 +118,13 @@ def eval_sign(term, body):
 
 
 def execute(case):
+    if case.get('kind') == 'ECON':
+        from .. import econprops, econ
+        viol, stats, sess = econprops.numeric_check(case, ('income',), ID)
+        stats['probes'] = dict(stats.get('probes', {}), model_level_income_ledger=1)
+        solved = stats.get('main_outcome', {}).get('main:ok', 0) > 0
+        return {'violations': viol, 'stats': stats, 'sig': 'econ:' + econprops.program_sig(case, sess),
+                'digest': core.digest([(i, n, o) for i, n, o in sess.log]), 'nontrivial': solved}
     core.import_sut()
     from sfc_models.models import Model, Country
     from sfc_models.sector import Sector
